@@ -1,0 +1,472 @@
+//go:build verif
+
+// Machine-checked contracts for property C14 (deadlines and cancellation
+// propagate hop by hop). Comment-only file read by govc. Run: govc -props C14
+// Contracts elsewhere that also count for C14 (tagged there): callReq.read /
+// write (ttl on the wire, verif_contracts.go), lazyCallReq.TTL / SetTTL,
+// expireExchange, GetContextError (C20 file). Where this file names a function
+// that already has a contract in another file the two are CONJOINED by the
+// engine: only the extra clauses are given here.
+//
+// How the property is stated. Several facts of C14 concern a value at the
+// moment it is handed to another component (a ttl handed to the sender, a
+// frame handed to the destination relayer, a cancel message handed to the
+// connection). After the hand-over the callee has arbitrary effects
+// (`modifies all`), so these facts are written as PRECONDITIONS of the callee
+// (or `atcall` clauses of the caller) and are discharged in the anchored caller:
+//   beginCall          -> writeMethod       sent-ttl-at-least-1ms
+//   Connection.handleCallReq -> newIncomingContext / newExchange
+//                                           handler context built with the wire ttl
+//   Relayer.handleCallReq -> Receive / fragmentingSend
+//                                           forwarded ttl <= received, <= max
+//   Relayer.handleCallReq -> addRelayItem   timer-within-relay-max
+//   Connection.onCancel -> sendMessage      cancel-frames-only-when-enabled
+//   handleFrameRelay   -> Relayer.Relay     cancel-frames-relayed-only-when-enabled
+// Invocations of cancel functions and of the onCancel hook are counted with
+// ghost fields (ncancel, nnotify).
+// Still `trusted` (ASSUMED), each with its reason at the contract: writeMethod,
+// Relayer.Receive, Relayer.fragmentingSend, Relayer.Relay (hand-over points
+// carrying only the precondition), ContextBuilder.Build (context package
+// semantics), Peer.getConnectionRelay (dialling), and a C14-scoped trusted VIEW
+// of Relayer.failRelayItem (its verified contract is in the C20 file).
+//
+// Mutations that must be caught (re-checked after integration):
+//   beginCall rejects only negative budgets            -> beginCall#requires(writeMethod: sent-ttl-at-least-1ms)
+//   relay clamp inverted / clamp not written to frame  -> Relayer.handleCallReq#requires(Receive: forwarded-ttl-not-above-received-nor-max)
+//   handler context built with 2*ttl                   -> Connection.handleCallReq#atcall(newExchange: exchange-registered-with-that-context)
+//   handleCancel honours cancel when disabled          -> Connection.handleCancel#ensures(ignored-when-disabled)
+//   onCancel drops the option check                    -> onCancel#requires(sendMessage: cancel-frames-only-when-enabled)
+//   handleFrameRelay forwards cancels when disabled    -> handleFrameRelay#requires(Relay: cancel-frames-relayed-only-when-enabled)
+//   doneSending no longer cancels                      -> doneSending#ensures(context-cancelled-on-completion)
+//   onCtxErr notifies on deadline instead of cancel    -> onCtxErr#ensures(cancelled-notifies-peer)
+//   addRelayItem arms the timer with 2*ttl             -> addRelayItem#ensures(timer-armed-with-the-given-ttl)
+//   SetTTL writes microseconds                         -> SetTTL#ensures(wire-is-floor-ms)
+
+package tchannel
+
+// ===========================================================================
+// relay_messages.go -- the ttl field of a call req frame: payload bytes 1..4,
+// big-endian milliseconds
+// ===========================================================================
+
+// (conjoined with the contracts in verif_contracts.go: requires LCR(f), TTL is
+// be32(payload, 1) ms, SetTTL writes only payload[1:5])
+//@ func (f *lazyCallReq) TTL() (d time.Duration)
+//@   ensures d >= 0
+//@   property C14
+
+//@ func (f *lazyCallReq) SetTTL(d time.Duration)
+//@   label wire-is-floor-ms
+//@   ensures be32(f.Payload, 1) == uint32(d / 1000000)
+//@   label never-larger-than-asked
+//@   ensures 0 <= d && d / 1000000 <= 4294967295 ==> be32(f.Payload, 1) * 1000000 <= d
+//@   label only-ttl-bytes
+//@   ensures forall j int :: 0 <= j && j < len(f.Payload) && (j < 1 || j >= 5) ==> u8at(f.Payload, j) == old(u8at(f.Payload, j))
+//@   property C14
+
+// A configured maximum is kept iff it is between 1 ms and 2^32-1 ms, so that
+// SetTTL(max) never wraps; anything else becomes the 2 minute default.
+//@ pred ValidRelayMax(d time.Duration) := d >= 1000000 && d / 1000000 <= 4294967295
+//@ func validateRelayMaxTimeout(d time.Duration, logger Logger) (r time.Duration)
+//@   requires logger != nil
+//@   ensures ValidRelayMax(r)
+//@   ensures ValidRelayMax(d) ==> r == d
+//@   ensures !ValidRelayMax(d) ==> r == 120000000000
+//@   property C14
+
+// ===========================================================================
+// mex.go -- cancellation of a handler's context; cancel notification of the
+// caller's side. ncancel(fn) counts the invocations of a cancel function.
+// ===========================================================================
+
+//@ ghostfield ncancel
+//@ funcfield messageExchange.ctxCancel()
+//@   modifies ncancel(self)
+//@   ensures ncancel(self) == old(ncancel(self)) + 1
+
+// A cancel frame for an exchange cancels that exchange's context.
+//@ func (mex *messageExchange) handleCancel(fr *Frame)
+//@   nilable fr
+//@   modifies ncancel(mex.ctxCancel)
+//@   label context-cancelled
+//@   ensures mex.ctxCancel != nil ==> ncancel(mex.ctxCancel) == old(ncancel(mex.ctxCancel)) + 1
+//@   property C14
+
+// HasMex: a live exchange with a cancel function is registered under id.
+//@ pred HasMex(s *messageExchangeSet, id uint32) := has(s.exchanges, id) && s.exchanges[id] != nil && s.exchanges[id].ctxCancel != nil
+
+//@ func (mexset *messageExchangeSet) handleCancel(frame *Frame)
+//@   requires mexset.log != nil && mexset.exchanges != nil && own(frame) == 1
+//@   modifies ncancel(mexset.exchanges[frame.Header.ID].ctxCancel)
+//@   label live-exchange-cancelled
+//@   ensures HasMex(mexset, frame.Header.ID) ==>
+//@             ncancel(mexset.exchanges[frame.Header.ID].ctxCancel) == old(ncancel(mexset.exchanges[frame.Header.ID].ctxCancel)) + 1
+//@   property C14
+
+// ===========================================================================
+// inbound.go -- a cancel frame from the caller cancels the handler's context
+// if and only if cancel propagation is enabled on this connection.
+// ===========================================================================
+
+//@ func (c *Connection) handleCancel(frame *Frame) (release bool)
+//@   requires c.statsReporter != nil && c.log != nil && c.inbound != nil && c.inbound.log != nil && c.inbound.exchanges != nil && own(frame) == 1
+//@   modifies ncancel(c.inbound.exchanges[frame.Header.ID].ctxCancel)
+//@   ensures release
+//@   label honoured-when-enabled
+//@   ensures c.opts.PropagateCancel && HasMex(c.inbound, frame.Header.ID) ==>
+//@             ncancel(c.inbound.exchanges[frame.Header.ID].ctxCancel) == old(ncancel(c.inbound.exchanges[frame.Header.ID].ctxCancel)) + 1
+//@   label ignored-when-disabled
+//@   ensures !c.opts.PropagateCancel ==>
+//@             ncancel(c.inbound.exchanges[frame.Header.ID].ctxCancel) == old(ncancel(c.inbound.exchanges[frame.Header.ID].ctxCancel))
+//@   property C14
+
+// Caller side: when the caller's context is cancelled (and only then) the
+// connection is asked to tell the peer. nnotify(fn) counts invocations of the
+// exchange set's onCancel hook, notifyid(fn) is the message id last passed.
+//@ ghostfield nnotify
+//@ ghostfield notifyid
+// (conjoined with the frame given in verif_contracts.go: the hook sends a
+// cancel frame and may tear the connection down; it takes no frame away)
+//@ funcfield messageExchangeSet.onCancel(id uint32)
+//@   ensures nnotify(self) == old(nnotify(self)) + 1 && notifyid(self) == id
+
+//@ func (mex *messageExchange) onCtxErr(err error)
+//@   requires mex.mexset != nil
+//@   modifies allbut own
+//@   label cancelled-notifies-peer
+//@   ensures err == context.Canceled && old(mex.mexset.onCancel) != nil ==>
+//@             nnotify(old(mex.mexset.onCancel)) == old(nnotify(mex.mexset.onCancel)) + 1 && notifyid(old(mex.mexset.onCancel)) == old(mex.msgID)
+//@   label deadline-does-not-notify
+//@   ensures err != context.Canceled ==> nnotify(old(mex.mexset.onCancel)) == old(nnotify(mex.mexset.onCancel))
+//@   property C14
+
+// recvPeerFrame (the caller's wait) is under contract in the C20 file (what a
+// returned frame is). "A cancelled context ends the wait with
+// ErrRequestCancelled" is GetContextError's contract (C20 file, tagged C14
+// too) applied to ctx.Err(), which is an arbitrary value at every call in the
+// engine's model, so it is not restated on recvPeerFrame.
+
+// ===========================================================================
+// connection.go -- cancel frames leave this process only when
+// SendCancelOnContextCanceled is set. The check is placed where messages are
+// handed to the connection: sendMessage may be given a cancel message only on
+// a connection that has the option enabled.
+// ===========================================================================
+
+//@ func (c *Connection) sendMessage(msg message) (err error)
+//@   label cancel-frames-only-when-enabled
+//@   requires istype(msg, *cancelMessage) ==> c.opts.SendCancelOnContextCanceled
+//@   requires msg != nil && c.opts.FramePool != nil
+//@   modifies nothing
+//@   property C14
+
+// (connectionError is under contract in the C20 file)
+
+//@ func (c *Connection) onCancel(msgID uint32)
+//@   requires ConnErrOK(c) && c.opts.FramePool != nil
+//@   modifies all
+//@   property C14
+
+// A relaying connection drops cancel frames unless cancel propagation is
+// enabled: the relayer is never handed one otherwise. (Relay is ASSUMED, see
+// the C20 file; this second trusted contract is conjoined with that one and
+// adds the hand-over precondition, checked in handleFrameRelay.)
+//@ func (r *Relayer) Relay(f *Frame) (shouldRelease bool, err error)
+//@   trusted
+//@   label cancel-frames-relayed-only-when-enabled
+//@   requires f.Header.messageType == messageTypeCancel ==> r.conn.opts.PropagateCancel
+//@   ensures r.conn == old(r.conn) && r.conn.log == old(r.conn.log)
+
+// (handleFrameNoRelay is under contract in the C20 file)
+
+//@ func (c *Connection) handleFrameRelay(frame *Frame) (release bool)
+//@   requires c.relay != nil && c.relay.conn == c && c.log != nil
+//@   modifies all
+//@   label dropped-cancel-is-released
+//@   ensures old(frame.Header.messageType == messageTypeCancel && !c.opts.PropagateCancel) ==> release
+//@   property C14
+
+// ===========================================================================
+// inbound.go -- the handler's context is cancelled when its response
+// completes (doneSending, Blackhole) and when its exchange fails (watcher
+// goroutine of dispatchInbound).
+// ===========================================================================
+
+//@ funcfield InboundCallResponse.cancel()
+//@   modifies ncancel(self)
+//@   ensures ncancel(self) == old(ncancel(self)) + 1
+
+// Removing an exchange from its set runs the connection's onRemoved hook,
+// which never invokes a context's cancel function (assumed for the hook:
+// ncancel is in its keep-list in verif_contracts.go; verified for shutdown,
+// removeExchange and expireExchange, whose keep-lists name ncancel too).
+//@ func (mex *messageExchange) inboundExpired()
+//@   requires MexSetOK(mex.mexset)
+//@   modifies allbut ncancel
+//@   property C14
+
+//@ func (response *InboundCallResponse) doneSending()
+//@   requires response.timeNow != nil && response.statsReporter != nil && response.cancel != nil && response.mex != nil && MexSetOK(response.mex.mexset)
+//@   modifies allbut errAttempts, own, Frame, InboundCallResponse, InboundCall, readableFragment
+//@   label context-cancelled-on-completion
+//@   ensures ncancel(old(response.cancel)) == old(ncancel(response.cancel)) + 1
+//@   property C14
+
+//@ func (response *InboundCallResponse) Blackhole()
+//@   requires response.cancel != nil
+//@   modifies ncancel(response.cancel)
+//@   label context-cancelled-on-blackhole
+//@   ensures ncancel(response.cancel) == old(ncancel(response.cancel)) + 1
+//@   property C14
+
+// dispatchInbound and its watcher goroutine (dispatchInbound$1: cancel on
+// exchange error, expire on context error) are not under contract: the free
+// variables of a closure cannot be named in a requires clause, and the
+// variables captured by the closure (c, call) live in heap cells that every
+// `modifies all` callee havocs; see report.
+
+// ===========================================================================
+// outbound.go -- the ttl of an outgoing call is the caller's remaining time;
+// calls with less than a millisecond left fail locally.
+// (ttl == deadline - now cannot be stated: the result of ctx.Deadline(), an
+// interface method of package context, cannot be named in a spec. What is
+// checked: no call req is handed to the sender with a ttl under 1 ms.)
+// ===========================================================================
+
+// (the exchange set's onAdded hook: see verif_contracts.go -- it leaves
+// exchanges, exchange sets, frames and call objects alone)
+
+//@ func (mexset *messageExchangeSet) newExchange(ctx context.Context, ctxCancel context.CancelFunc, framePool FramePool, msgType messageType, msgID uint32, bufferSize int) (mex *messageExchange, err error)
+//@   nilable ctxCancel
+//@   requires mexset.log != nil && mexset.exchanges != nil && mexset.onAdded != nil && bufferSize >= 0
+//@   modifies allbut errAttempts, readableFragment, Frame, messageExchangeSet, messageExchange, typed.ReadBuffer, cs, own, InboundCallResponse, InboundCall, ncancel, Connection
+//@   ensures (mex == nil) != (err == nil)
+//@   label exchange-carries-the-context
+//@   ensures err == nil ==> mex.ctx == ctx
+//@   ensures err == nil ==> ref(mex.ctxCancel) == ref(ctxCancel)
+//@   ensures err == nil ==> fresh(mex) && mex.msgID == msgID && mex.msgType == msgType && mex.mexset == mexset
+// (dropped: "err == nil ==> has(mexset.exchanges, msgID) && mexset.exchanges[msgID] == mex"
+// -- the onAdded hook runs after the registration and a keep-list cannot name
+// map contents; registration under the id is addExchange's contract, C04)
+//@   property C14
+
+// The message id counter is an atomic: its value is arbitrary in the model.
+//@ func (c *Connection) NextMessageID() (id uint32)
+//@   modifies nothing
+//@   property C14
+
+// (ChecksumType.New is under contract in verif_contracts.go: requires t < 4)
+
+// The user's tracer sees only a local span carrier: it writes nothing but the
+// tracing fields of the call req (verified, `nosafety`: opentracing calls
+// return arbitrary values).
+//@ func (c *Connection) startOutboundSpan(ctx context.Context, serviceName, methodName string, call *OutboundCall, startTime time.Time) (span opentracing.Span)
+//@   requires ctx != nil
+//@   nosafety
+//@   property C14
+//@   modifies call.callReq.Tracing.spanID, call.callReq.Tracing.parentID, call.callReq.Tracing.traceID, call.callReq.Tracing.flags
+
+// writeMethod starts sending the call req: the ttl it carries is at least one
+// millisecond (so the wire value, floor(ttl/1ms), is never the "no time left" 0
+// unless it wraps at 2^32 ms).
+// ASSUMED (trusted) hand-over point: the contract carries only the
+// precondition, checked in beginCall. (The body runs the fragmenting writer
+// whose sender is the call object itself: BeginArgument's frame forgets the
+// call's own fields, so the precondition of reqResWriter.failed cannot be
+// re-established inside it.)
+//@ func (call *OutboundCall) writeMethod(method []byte) (err error)
+//@   trusted
+//@   label sent-ttl-at-least-1ms
+//@   requires call.callReq.TimeToLive >= 1000000
+//@   modifies all
+
+//@ func (c *Connection) beginCall(ctx context.Context, serviceName, methodName string, callOptions *CallOptions) (call *OutboundCall, err error)
+//@   requires ctx != nil && c.timeNow != nil && c.log != nil && MexSetOK(c.outbound) && c.opts.ChecksumType < 4
+//@   modifies all
+//@   property C14
+
+// ===========================================================================
+// context_builder.go, context.go, inbound.go -- the handler's context is
+// built with exactly the ttl received on the wire.
+//
+// builtTimeout(cancel): the timeout of the context that `cancel` belongs to.
+// It is DEFINED (assumed, T3) at the one place that creates contexts, Build:
+// context.WithTimeout(parent, cb.Timeout) yields a context that expires no
+// later than cb.Timeout after the call. (When cb.Timeout == 0 and the parent
+// has a deadline Build uses WithCancel instead; see report, suspected defect.)
+// ===========================================================================
+
+//@ ghost func builtTimeout(cancel context.CancelFunc) int
+
+// Build hands its parameter block to context.WithValue, which the engine
+// treats as havocking the heap; context.Background/WithTimeout/WithCancel are
+// unmodelled. Its contract is therefore assumed as a whole (trusted).
+//@ func (cb *ContextBuilder) Build() (c ContextWithHeaders, cancel context.CancelFunc)
+//@   trusted
+//@   effect nonblocking
+//@   modifies nothing
+//@   ensures builtTimeout(cancel) == cb.Timeout && cancel != nil && c != nil
+
+//@ func newIncomingContext(ctx context.Context, call IncomingCall, timeout time.Duration) (c context.Context, cancel context.CancelFunc)
+//@   nilable call
+//@   requires ctx != nil
+//@   modifies nothing
+//@   label built-with-the-given-timeout
+//@   ensures builtTimeout(cancel) == timeout
+//@   ensures c != nil && cancel != nil
+//@   property C14
+
+// The tracer is handed a carrier built from the call req: no effect on
+// tchannel objects (verified, `nosafety`).
+//@ func (c *Connection) extractInboundSpan(callReq *callReq) (span opentracing.Span)
+//@   nosafety
+//@   property C14
+//@   modifies nothing
+
+// (SendSystemError / protocolError: under contract in verif_contracts.go and the C20 file)
+
+// The ttl decoded from a call req frame is the wire value: 4 bytes after the
+// flags byte, big-endian milliseconds (clauses added to the contracts of
+// verif_contracts.go; the *callReq fact is proved on (*callReq).read there).
+//@ iface message.read(r *typed.ReadBuffer) (err error)
+//@   ensures istype(self, *callReq) && err == nil && old(r.err) == nil ==> len(old(r.remaining)) >= 4 && self.(*callReq).TimeToLive == be32(old(r.remaining), 0) * 1000000
+//@ func parseInboundFragment(framePool FramePool, frame *Frame, message message) (fragment *readableFragment, err error)
+//@   label call-req-ttl-is-the-wire-ttl
+//@   ensures err == nil && istype(message, *callReq) ==> message.(*callReq).TimeToLive == be32(frame.Payload, 1) * 1000000
+//@   property C14
+
+// (conjoined with the admission contract in verif_contracts.go) The handler's
+// context is built with exactly the ttl received on the wire, and that context
+// (its cancel function) is the one the call's exchange is registered with.
+//@ func (c *Connection) handleCallReq(frame *Frame) (release bool)
+//@   requires c.baseContext != nil
+//@   label handler-context-built-with-received-ttl
+//@   atcall newIncomingContext callReq.TimeToLive == be32(frame.Payload, 1) * 1000000
+//@   label exchange-registered-with-that-context
+//@   atcall newExchange builtTimeout(cancel) == be32(frame.Payload, 1) * 1000000
+//@   property C14
+
+// ===========================================================================
+// relay.go -- a relay clamps the ttl in place before forwarding and arms its
+// own timers with the clamped value.
+//
+// receivedTTL(f): the wire ttl (ms) frame f carried when the relay read it;
+// relayMaxOf(f): the configured maximum of the relayer that read it. Both are
+// fixed by the preconditions of Relayer.handleCallReq and then appear in the
+// preconditions of the two functions that hand the call req on (Receive on
+// the destination relayer, fragmentingSend): at the moment of hand-over the
+// frame carries no more than it did on arrival and no more than the maximum.
+// ===========================================================================
+
+//@ ghost func receivedTTL(f *Frame) int
+//@ ghost func relayMaxOf(f *Frame) int
+//@ pred ForwardableCallReq(f *Frame) := FrameOK(f) && len(f.Payload) >= 5 &&
+//@        be32(f.Payload, 1) <= receivedTTL(f) && be32(f.Payload, 1) * 1000000 <= relayMaxOf(f)
+
+//@ pred RelayerOK(r *Relayer) := r != nil && r.inbound != nil && r.inbound.items != nil && r.outbound != nil && r.outbound.items != nil &&
+//@        r.timeouts != nil && r.conn != nil && r.logger != nil
+
+// ASSUMED (trusted) hand-over point: the destination relayer takes the frame
+// (queues it on its connection, may fail the item). The contract carries no
+// claim except the precondition, which is checked in Relayer.handleCallReq.
+//@ func (r *Relayer) Receive(f *Frame, fType frameType) (sent bool, failureReason string)
+//@   label forwarded-ttl-not-above-received-nor-max
+//@   requires fType == requestFrame && f.Header.messageType == messageTypeCallReq ==> ForwardableCallReq(f)
+//@   modifies all
+//@   property C14
+
+// ASSUMED (trusted) hand-over point; the engine rejects the body ("outside
+// subset: interior pointer in interface").
+//@ func (r *Relayer) fragmentingSend(call RelayCall, f *lazyCallReq, relayToDest relayItem, origID uint32) (err error)
+//@   trusted
+//@   label refragmented-ttl-not-above-received-nor-max
+//@   requires ForwardableCallReq(f.Frame)
+//@   label own-timer-matches-forwarded-ttl
+//@   requires relayToDest.timeout != nil && be32(f.Payload, 1) * 1000000 <= armed(relayToDest.timeout) &&
+//@            armed(relayToDest.timeout) < be32(f.Payload, 1) * 1000000 + 1000000
+//@   modifies all
+// (it only reads f and leaves the relayer's tables in place)
+//@   ensures f.Frame == old(f.Frame) && LCR(f) && r.logger == old(r.logger) && r.outbound == old(r.outbound)
+
+// failRelayItem entombs the item (and may send an error frame, tell the stats
+// object, and let the connection re-check its exchanges: those effects are not
+// modelled).
+// (failRelayItem, decrementPending: C20 file; Connection.close: verif_contracts.go)
+// ASSUMED (trusted view, used only inside C14 functions): failing a relay item
+// entombs it, may send an error frame, tells the stats object and lets the
+// connection re-check its exchanges -- none of which touches the call req
+// frame being relayed. (The verified C20 contract is `modifies all`: the frame
+// facts cannot be carried through the connection's exchange-change callbacks.)
+//@ func (r *Relayer) failRelayItem(items *relayItems, id uint32, reason string, err error)
+//@   trusted
+//@   modifies allbut lazyCallReq, Frame, own, bytes
+//@   property C14
+
+// (reads the pending counter and the connection state: no effect except the
+// monitor's view of the state)
+//@ func (r *Relayer) canHandleNewCall() (ok bool, state connectionState)
+//@   nosafety
+//@   modifies r.conn.state
+//@   property C14
+
+// Picking (possibly dialling) the destination connection: effects on peers
+// and connections are not modelled; a relaying channel's connections have
+// relayers.
+// (conjoined with the C20 contract; the fact comes from the assumed contract
+// of Peer.getConnectionRelay below)
+//@ func (r *Relayer) getDestination(f *lazyCallReq, call RelayCall) (conn *Connection, ok bool, err error)
+//@   ensures err == nil && ok ==> conn != nil && RelayerOK(conn.relay) && ValidRelayMax(conn.relay.maxTimeout)
+//@   label success-leaves-the-call-req-alone
+//@   ensures err == nil && ok ==> LCR(f) && f.Frame == old(f.Frame) && be32(f.Payload, 1) == old(be32(f.Payload, 1)) && len(f.arg2Appends) == old(len(f.arg2Appends))
+//@   property C14
+// (the assumed contract of Peer.getConnectionRelay is in the C20 file, shared by C03/C14/C20)
+
+// User-supplied relay host and per-call stats object (T4): they may append to
+// arg2 through the CallFrame they are given and nothing else.
+//@ iface RelayHost.Start(f relay.CallFrame, conn *relay.Conn) (call RelayCall, err error)
+//@   modifies f.(*lazyCallReq).arg2Appends
+//@   ensures err == nil ==> call != nil
+//@ iface RelayCall.SentBytes(n uint16)
+//@   modifies nothing
+// (RelayCall.Destination / Failed / End: C20 file)
+
+// Timers: time.AfterFunc / Timer.Reset are unmodelled (`nosafety`: their
+// results decide explicit panics). Start arms the timer with d: armed(rt)
+// records that duration (ghost assignment). A pooled timer is inactive: only
+// stopped or completed timers may be released (Release panics otherwise) --
+// pool discipline, assumed (defines).
+//@ ghostfield armed
+//@ func (tp *relayTimerPool) Get() (rt *relayTimer)
+//@   nosafety
+//@   modifies rt.released
+//@   defines !rt.active
+//@   ensures rt != nil && !rt.released
+//@   property C14
+//@ func (rt *relayTimer) Start(d time.Duration, items *relayItems, id uint32, isOriginator bool)
+//@   nosafety
+//@   requires !rt.released && !rt.active
+//@   modifies rt.active, rt.stopped, rt.items, rt.id, rt.isOriginator, armed(rt)
+//@   defines armed(rt) == d
+//@   property C14
+
+//@ func (r *Relayer) addRelayItem(isOriginator bool, id, remapID uint32, destination *Relayer, ttl time.Duration, span Span, call RelayCall, mutatedChecksum Checksum) (item relayItem)
+//@   nilable call mutatedChecksum
+//@   requires RelayerOK(r)
+//@   label timer-within-relay-max
+//@   requires ttl <= ite(isOriginator, r.maxTimeout, destination.maxTimeout)
+//@   modifies r.inbound.items, r.outbound.items, item.timeout.*, armed(item.timeout)
+//@   ensures r.inbound.items == old(r.inbound.items) && r.outbound.items == old(r.outbound.items)
+//@   label timer-armed-with-the-given-ttl
+//@   ensures armed(item.timeout) == ttl
+//@   ensures item.destination == destination && item.remapID == remapID && item.isOriginator == isOriginator && item.timeout != nil
+//@   property C14
+
+// `nosafety`: the function is checked for the ttl hand-over facts (the
+// preconditions of Receive, fragmentingSend, addRelayItem, SetTTL) only.
+//@ func (r *Relayer) handleCallReq(f *lazyCallReq) (shouldRelease bool, err error)
+//@   nosafety
+//@   requires LCR(f) && RelayerOK(r) && r.relayHost != nil && ValidRelayMax(r.maxTimeout)
+//@   requires !has(r.localHandler, bytestr(f.Payload[31:31+u8at(f.Payload, 30)]))
+//@   requires receivedTTL(f.Frame) == be32(f.Payload, 1) && relayMaxOf(f.Frame) == r.maxTimeout
+//@   modifies all
+//@   property C14
